@@ -172,7 +172,9 @@ PREP = {name: _clear_tags_on_unset for name in APIS if 'codegen' in name}
 def strategy_(draw, tier):
   recipe = draw(dags.dag(
       max_nodes=9, min_nodes=3, tags=True, bts=('Config', 'Config', 'Partial'),
-      kinds=['B', 'B', 'B', 'list', 'tuple', 'dict', 'Bpos', 'TV', 'Bempty', 'ltuple', 'odict'],
+      kinds=['B', 'B', 'B', 'list', 'tuple', 'dict', 'Bpos', 'TV', 'Bempty', 'ltuple', 'odict',
+             # further node kinds of the shared generator that this check's oracle handles (each once)
+             'box', 'ddict', 'mdict', 'kdict', 'set', 'fset', 'ntuple', 'nt', 'Bann', 'Bmut', 'Bmut1', 'Bmutnest', 'Bpo', 'Bpo3', 'Bdc', 'AFP', 'holder', 'dcinst', 'Bdictcfg'],
       fns=['things:f2', 'things:h1', 'things:Base', 'things:mutdef', 'things:mutating'],
       root_kinds=['B'], p_alias=0.8, allow_copyof=False))
   # a long value somewhere
